@@ -462,7 +462,6 @@ func r05_6(c *Ctx, r *Report) {
 	}
 }
 
-
 // termSearchSite: a loop that searches the term table for the interval the moment lies in (it carries the start of
 // the interval, a *Solar, from one iteration to the next), in fn itself or in a function literal or unexported
 // helper that fn calls — then once per call, in a frame whose parameters and captured variables resolve to fn's.
@@ -514,7 +513,6 @@ func termSearchSites(fn *ssa.Function) []termSearchSite {
 	}
 	return out
 }
-
 
 // r05_6_calls: R05.6 when the two term searches are calls (of a function literal or helper) whose results are the
 // term indices: computeMonth is then followed as a whole, the two results being abstract inputs.
